@@ -51,12 +51,16 @@ reg("C34", [mon("hydro", "hv_tick_emb")],
 reg("C39", [mon("hydro", "hv_tick_emb")],
     technique="runtime monitor: hydro_std quorum helpers and join_responses compiled by the production code "
               "generator, all response sequences x all tick partitions, judged from the documented intent",
-    text="collect_quorum and collect_quorum_with_response for every (min,max) with 1<=min<=max<=3 over all response "
-         "sequences on 2 keys with <= max responses per key (Ok/Err), under every composition into ticks with and "
-         "without empty ticks in between (quick tier samples the sequences longer than 4), plus random sequences "
+    text="collect_quorum and collect_quorum_with_response for every (min,max) with 1<=min<=max<=5 (15 generated "
+         "flows, including the sub-majority shapes max >= 2*min+1: (1,3),(1,4),(1,5),(2,5)) over all response "
+         "sequences on 2 keys with <= max responses per key (Ok/Err; for max 4 / 5 capped at 6 / 5 responses in total, "
+         "thorough 7 / 6, which contains every one-key sequence), under every composition into ticks with and without "
+         "empty ticks in between, plus 10 000 / 150 000 random error-heavy to success-heavy sequences per (min,max) "
          "over up to 5 keys: a key is reported exactly once iff it gathered >= min Ok and never before; "
          "with_response releases only arrived Ok payloads of such keys, each once, >= min of them, in one tick, in "
-         "input order; every Err passes through once in order. join_responses over every placement of request and "
+         "input order; every Err passes through once in order. The run is inconclusive unless, for every sub-majority "
+         "shape, >= 300 cases had more than max/2 errors arrive strictly before a later Ok of the same key (>= 100 of "
+         "them completing the quorum only afterwards). join_responses over every placement of request and "
          "response for 3 keys x 3 ticks with request tick <= response tick, plus random cases: each response is "
          "paired with its request's metadata exactly once.",
     note="Inputs stay inside the helpers' documented contracts (<= max responses per key; one request and one "
